@@ -525,6 +525,10 @@ Proof.
   pose proof (read_lines_keeps ls (init skip) o (Inv_init skip)) as K. rewrite H in K. exact K.
 Qed.
 
+(* in every reachable state, every site whose guard the code has tested is safe *)
+Theorem reader_sites_total s k : reachable s -> site_guard k s = true -> site_ok k s = true.
+Proof. intros Hr. apply site_safe_inv, reader_inv, Hr. Qed.
+
 (* no transition panics from a reachable state: none of the seven site kinds, none of the operations on
    the batch the reader built *)
 Theorem reader_step_total s x o : reachable s -> panics (step x s o) = false.
